@@ -1,40 +1,63 @@
 import AtreeProofs.Trans.MapElem
+import AtreeProofs.Trans.MapElemOn
 namespace Atree.TransEq
 open Atree Atree.Gen.TransElem
 
 section
 variable {α X : Type} (o : ElemsOps α) (cfg : MCfg) (k : MKey) (v : Elem) (env : Env α SV SW X MKey Unit Ctx GE)
 
-theorem singleElement_Get_eq_model (hE : EnvB o cfg k v env) (x : SElem) (c : Ctx) (d : MKey) (lvl hk : UInt64) (level : Nat) :
+/-- `singleElement_Get_eq_model` over the relativised environment `EnvBOn` -/
+theorem singleElement_Get_eq_model_on {Qg Qs Qr : α → Nat → Ctx → Prop} {Qn : Nat → SElem → Prop}
+    (hE : EnvBOn o cfg k v env Qg Qs Qr Qn) (x : SElem) (c : Ctx) (d : MKey) (lvl hk : UInt64) (level : Nat) :
     singleElement_Get env (mei_cE x) c d lvl hk (.key k) = mei_rGet c (MElemF.get o cfg (.single x) level k) := by
   simp only [singleElement_Get, mei_cE, hE.cmp, MElemF.get]
   cases x.key.same k <;> simp [mei_rGet, hE.eKeyNotFound]
 
-theorem singleElement_Remove_eq_model (hE : EnvB o cfg k v env) (x : SElem) (c : Ctx) (d : MKey) (lvl hk : UInt64) (level : Nat) :
+theorem singleElement_Get_eq_model (hE : EnvB o cfg k v env) (x : SElem) (c : Ctx) (d : MKey) (lvl hk : UInt64) (level : Nat) :
+    singleElement_Get env (mei_cE x) c d lvl hk (.key k) = mei_rGet c (MElemF.get o cfg (.single x) level k) :=
+  singleElement_Get_eq_model_on o cfg k v env hE.toOn x c d lvl hk level
+
+/-- `singleElement_Remove_eq_model` over the relativised environment `EnvBOn` -/
+theorem singleElement_Remove_eq_model_on {Qg Qs Qr : α → Nat → Ctx → Prop} {Qn : Nat → SElem → Prop}
+    (hE : EnvBOn o cfg k v env Qg Qs Qr Qn) (x : SElem) (c : Ctx) (d : MKey) (lvl hk : UInt64) (level : Nat) :
     singleElement_Remove env (mei_cE x) c d lvl hk (.key k) = mei_rERemove c (MElemF.remove o cfg (.single x) level k c) := by
   simp only [singleElement_Remove, mei_cE, hE.cmp, MElemF.remove]
   cases x.key.same k <;> simp [mei_rERemove, mei_cOptEl, hE.eKeyNotFound]
 
+theorem singleElement_Remove_eq_model (hE : EnvB o cfg k v env) (x : SElem) (c : Ctx) (d : MKey) (lvl hk : UInt64) (level : Nat) :
+    singleElement_Remove env (mei_cE x) c d lvl hk (.key k) = mei_rERemove c (MElemF.remove o cfg (.single x) level k c) :=
+  singleElement_Remove_eq_model_on o cfg k v env hE.toOn x c d lvl hk level
+
 theorem mei_il_u64_succ (level : Nat) : u64 level + 1 = u64 (level + 1) := by
   simp [u64, UInt64.ofNat_add]
 
-theorem inlineCollisionGroup_Get_eq_model (hE : EnvB o cfg k v env) (g : α) (c : Ctx) (level : Nat) (hk : UInt64)
-    (hl : level + 1 < 2^64) (hL : cfg.L < 2^64) :
+/-- `inlineCollisionGroup_Get_eq_model` over the relativised environment `EnvBOn` -/
+theorem inlineCollisionGroup_Get_eq_model_on {Qg Qs Qr : α → Nat → Ctx → Prop} {Qn : Nat → SElem → Prop}
+    (hE : EnvBOn o cfg k v env Qg Qs Qr Qn) (g : α) (c : Ctx) (level : Nat) (hk : UInt64)
+    (hl : level + 1 < 2^64) (hL : cfg.L < 2^64) (hQ : Qg g (level + 1) c) :
     inlineCollisionGroup_Get env { elements := g } c k (u64 level) hk (.key k) = mei_rGet c (MElemF.get o cfg (.inl g) level k) := by
-  simp only [inlineCollisionGroup_Get, mei_il_u64_succ, hE.levels, u64_dgt hl hL, hE.dig k _ hl, hE.gGet g c _ hl, MElemF.get]
+  simp only [inlineCollisionGroup_Get, mei_il_u64_succ, hE.levels, u64_dgt hl hL, hE.dig k _ hl, hE.gGet g c _ hl hQ, MElemF.get]
   by_cases h : level + 1 > cfg.L
   · simp [h, mei_rGet, hE.eHashLevel]
   · simp [h]
 
-theorem inlineCollisionGroup_Remove_eq_model (hE : EnvB o cfg k v env) (g : α) (c : Ctx) (level : Nat) (hk : UInt64)
+theorem inlineCollisionGroup_Get_eq_model (hE : EnvB o cfg k v env) (g : α) (c : Ctx) (level : Nat) (hk : UInt64)
+    (hl : level + 1 < 2^64) (hL : cfg.L < 2^64) :
+    inlineCollisionGroup_Get env { elements := g } c k (u64 level) hk (.key k) = mei_rGet c (MElemF.get o cfg (.inl g) level k) :=
+  inlineCollisionGroup_Get_eq_model_on o cfg k v env hE.toOn g c level hk hl hL trivial
+
+/-- `inlineCollisionGroup_Remove_eq_model` over the relativised environment `EnvBOn` -/
+theorem inlineCollisionGroup_Remove_eq_model_on {Qg Qs Qr : α → Nat → Ctx → Prop} {Qn : Nat → SElem → Prop}
+    (hE : EnvBOn o cfg k v env Qg Qs Qr Qn) (g : α) (c : Ctx) (level : Nat) (hk : UInt64)
     (hl : level + 1 < 2^64) (hL : cfg.L < 2^64)
-    (hcnt : ∀ rk rv g' c', o.remove cfg g (level + 1) k c = .ok (rk, rv, g', c') → o.count g' < 2^32) :
+    (hcnt : ∀ rk rv g' c', o.remove cfg g (level + 1) k c = .ok (rk, rv, g', c') → o.count g' < 2^32)
+    (hQ : Qr g (level + 1) c) :
     inlineCollisionGroup_Remove env { elements := g } c k (u64 level) hk (.key k) =
       (let r := mei_rERemove c (MElemF.remove o cfg (.inl g) level k c)
        (r.1, r.2.1, r.2.2.1, r.2.2.2.1,
         ({ elements := (if level + 1 > cfg.L then g else match o.remove cfg g (level + 1) k c with | .ok (_, _, g', _) => g' | .error _ => g) } : inlineCollisionGroup α),
         r.2.2.2.2)) := by
-  simp only [inlineCollisionGroup_Remove, mei_il_u64_succ, hE.levels, u64_dgt hl hL, hE.dig k _ hl, hE.gRemove g c _ hl, MElemF.remove]
+  simp only [inlineCollisionGroup_Remove, mei_il_u64_succ, hE.levels, u64_dgt hl hL, hE.dig k _ hl, hE.gRemove g c _ hl hQ, MElemF.remove]
   by_cases h : level + 1 > cfg.L
   · simp [h, mei_rERemove, hE.eHashLevel, bind, Except.bind, throw, throwThe, MonadExceptOf.throw]
   · simp only [h, decide_false, if_false, Bool.false_eq_true]
@@ -50,15 +73,28 @@ theorem inlineCollisionGroup_Remove_eq_model (hE : EnvB o cfg k v env) (g : α) 
       · have hs := (hE.gSole g').2 hc
         simp [hc, hs, mei_cEl, mei_rERemove, mei_cOptEl, bind, Except.bind, pure, Except.pure]
 
-theorem inlineCollisionGroup_Set_eq_model (hE : EnvB o cfg k v env) (g : α) (c : Ctx) (level : Nat) (hk : UInt64) (b : Unit)
+theorem inlineCollisionGroup_Remove_eq_model (hE : EnvB o cfg k v env) (g : α) (c : Ctx) (level : Nat) (hk : UInt64)
+    (hl : level + 1 < 2^64) (hL : cfg.L < 2^64)
+    (hcnt : ∀ rk rv g' c', o.remove cfg g (level + 1) k c = .ok (rk, rv, g', c') → o.count g' < 2^32) :
+    inlineCollisionGroup_Remove env { elements := g } c k (u64 level) hk (.key k) =
+      (let r := mei_rERemove c (MElemF.remove o cfg (.inl g) level k c)
+       (r.1, r.2.1, r.2.2.1, r.2.2.2.1,
+        ({ elements := (if level + 1 > cfg.L then g else match o.remove cfg g (level + 1) k c with | .ok (_, _, g', _) => g' | .error _ => g) } : inlineCollisionGroup α),
+        r.2.2.2.2)) :=
+  inlineCollisionGroup_Remove_eq_model_on o cfg k v env hE.toOn g c level hk hl hL hcnt trivial
+
+/-- `inlineCollisionGroup_Set_eq_model` over the relativised environment `EnvBOn` -/
+theorem inlineCollisionGroup_Set_eq_model_on {Qg Qs Qr : α → Nat → Ctx → Prop} {Qn : Nat → SElem → Prop}
+    (hE : EnvBOn o cfg k v env Qg Qs Qr Qn) (g : α) (c : Ctx) (level : Nat) (hk : UInt64) (b : Unit)
     (hl : level + 1 < 2^64) (hL : cfg.L < 2^64) (hT : maxInlineMapElem cfg.T < 2^32)
-    (hsz : ∀ ks old g' c', o.set cfg g (level + 1) k v c = .ok (ks, old, g', c') → o.size g' + 2 < 2^32) :
+    (hsz : ∀ ks old g' c', o.set cfg g (level + 1) k v c = .ok (ks, old, g', c') → o.size g' + 2 < 2^32)
+    (hQ : Qs g (level + 1) c) :
     inlineCollisionGroup_Set env { elements := g } c cfg.addr b k (u64 level) hk (.key k) (.val v) =
       some (let r := mei_rESet c (MElemF.inlSet o cfg g level k v c)
             (r.1, r.2.1, r.2.2.1, r.2.2.2.1,
              ({ elements := (if level + 1 > cfg.L then g else match o.set cfg g (level + 1) k v c with | .ok (_, _, g', _) => g' | .error _ => g) } : inlineCollisionGroup α),
              r.2.2.2.2)) := by
-  simp only [inlineCollisionGroup_Set, mei_il_u64_succ, hE.levels, u64_dgt hl hL, hE.dig k _ hl, hE.gSet g c _ b hl, MElemF.inlSet]
+  simp only [inlineCollisionGroup_Set, mei_il_u64_succ, hE.levels, u64_dgt hl hL, hE.dig k _ hl, hE.gSet g c _ b hl hQ, MElemF.inlSet]
   by_cases h : level + 1 > cfg.L
   · simp [h, mei_rESet, hE.eHashLevel, bind, Except.bind, throw, throwThe, MonadExceptOf.throw]
   · simp only [h, decide_false, if_false, Bool.false_eq_true]
@@ -83,6 +119,16 @@ theorem inlineCollisionGroup_Set_eq_model (hE : EnvB o cfg k v env) (g : α) (c 
         · simp [hlv, h2, hs, mei_rESet, mei_cEl, bind, Except.bind, pure, Except.pure]
       · simp [hlv, mei_rESet, mei_cEl, bind, Except.bind, pure, Except.pure]
 
+theorem inlineCollisionGroup_Set_eq_model (hE : EnvB o cfg k v env) (g : α) (c : Ctx) (level : Nat) (hk : UInt64) (b : Unit)
+    (hl : level + 1 < 2^64) (hL : cfg.L < 2^64) (hT : maxInlineMapElem cfg.T < 2^32)
+    (hsz : ∀ ks old g' c', o.set cfg g (level + 1) k v c = .ok (ks, old, g', c') → o.size g' + 2 < 2^32) :
+    inlineCollisionGroup_Set env { elements := g } c cfg.addr b k (u64 level) hk (.key k) (.val v) =
+      some (let r := mei_rESet c (MElemF.inlSet o cfg g level k v c)
+            (r.1, r.2.1, r.2.2.1, r.2.2.2.1,
+             ({ elements := (if level + 1 > cfg.L then g else match o.set cfg g (level + 1) k v c with | .ok (_, _, g', _) => g' | .error _ => g) } : inlineCollisionGroup α),
+             r.2.2.2.2)) :=
+  inlineCollisionGroup_Set_eq_model_on o cfg k v env hE.toOn g c level hk b hl hL hT hsz trivial
+
 /-- `inlineCollisionGroup.Set` never hands back a single element -/
 theorem mei_il_inlSet_not_single {β : Type} (g : α) (c : Ctx) (level : Nat) (a : SElem → β) (d : β) :
     (match MElemF.inlSet o cfg g level k v c with | .ok (.single x', _, _, _) => a x' | _ => d) = d := by
@@ -98,12 +144,15 @@ theorem mei_il_inlSet_not_single {β : Type} (g : α) (c : Ctx) (level : Nat) (a
         · simp [h, hc, bind, Except.bind, pure, Except.pure]
       · simp [h, h0, bind, Except.bind, pure, Except.pure]
 
-theorem singleElement_Set_eq_model (hE : EnvB o cfg k v env) (x : SElem) (c : Ctx) (level : Nat) (hk : UInt64) (b : Unit)
+/-- `singleElement_Set_eq_model` over the relativised environment `EnvBOn` -/
+theorem singleElement_Set_eq_model_on {Qg Qs Qr : α → Nat → Ctx → Prop} {Qn : Nat → SElem → Prop}
+    (hE : EnvBOn o cfg k v env Qg Qs Qr Qn) (x : SElem) (c : Ctx) (level : Nat) (hk : UInt64) (b : Unit)
     (hl : level + 1 < 2^64) (hL : cfg.L < 2^64) (hT : maxInlineMapElem cfg.T < 2^32)
     (hsz : ∀ g ks old g' c', o.newWith cfg (level + 1) x = .ok g → o.set cfg g (level + 1) k v c = .ok (ks, old, g', c') →
       o.size g' + 2 < 2^32)
     (hks : x.key.size < 2^32) (hxs : x.size < 2^32)
-    (hnw : x.key.same k = false → ∃ g, o.newWith cfg (level + 1) x = .ok g) :
+    (hnw : x.key.same k = false → ∃ g, o.newWith cfg (level + 1) x = .ok g)
+    (hQn : Qn (level + 1) x) (hQ : ∀ g, o.newWith cfg (level + 1) x = .ok g → Qs g (level + 1) c) :
     singleElement_Set env (mei_cE x) c cfg.addr b k (u64 level) hk (.key k) (.val v) =
       some (let r := mei_rESet c (MElemF.set o cfg (.single x) level k v c)
             (r.1, r.2.1, r.2.2.1, r.2.2.2.1,
@@ -111,7 +160,7 @@ theorem singleElement_Set_eq_model (hE : EnvB o cfg k v env) (x : SElem) (c : Ct
              r.2.2.2.2)) := by
   rcases hsame : x.key.same k with _ | _
   · obtain ⟨g, hg⟩ := hnw hsame
-    have hN := hE.newWith (level + 1) x g hl hxs hg
+    have hN := hE.newWith (level + 1) x g hl hxs hQn hg
     have hset : MElemF.set o cfg (.single x) level k v c = MElemF.inlSet o cfg g level k v c := by
       simp [MElemF.set, hsame, hg, bind, Except.bind]
     rw [hset, mei_il_inlSet_not_single]
@@ -122,13 +171,13 @@ theorem singleElement_Set_eq_model (hE : EnvB o cfg k v env) (x : SElem) (c : Ct
     · rw [if_pos hlv] at hN
       simp only [mei_cE] at hN
       simp only [hlv, decide_true, if_true]
-      rw [← hlv, hN, inlineCollisionGroup_Set_eq_model o cfg k v env hE g c level hk b hl hL hT
-        (fun ks old g' c' h => hsz g ks old g' c' hg h)]
+      rw [← hlv, hN, inlineCollisionGroup_Set_eq_model_on o cfg k v env hE g c level hk b hl hL hT
+        (fun ks old g' c' h => hsz g ks old g' c' hg h) (hQ g hg)]
     · rw [if_neg hlv] at hN
       simp only [mei_cE] at hN
       simp only [hlv, decide_false, Bool.false_eq_true, if_false]
-      rw [hN, inlineCollisionGroup_Set_eq_model o cfg k v env hE g c level hk b hl hL hT
-        (fun ks old g' c' h => hsz g ks old g' c' hg h)]
+      rw [hN, inlineCollisionGroup_Set_eq_model_on o cfg k v env hE g c level hk b hl hL hT
+        (fun ks old g' c' h => hsz g ks old g' c' hg h) (hQ g hg)]
   · have hm : maxInlineMapValue cfg.T x.key.size < 2^32 := by
       have := msl_maxInlineMapValue_le cfg.T x.key.size
       simp only [maxInlineMapValue] at *; omega
@@ -140,6 +189,19 @@ theorem singleElement_Set_eq_model (hE : EnvB o cfg k v env) (x : SElem) (c : Ct
     simp only [singleElement_Set, mei_cE, hE.cmp, hsame, hE.keySize, hE.maxInline _ hks, hE.storable, u32_toNat hm,
       hE.valSize, hsize, MElemF.set, Option.isNone_none, Bool.not_true, Bool.false_eq_true, if_false, if_true]
     simp [mei_rESet, mei_cEl, mei_cE]
+
+theorem singleElement_Set_eq_model (hE : EnvB o cfg k v env) (x : SElem) (c : Ctx) (level : Nat) (hk : UInt64) (b : Unit)
+    (hl : level + 1 < 2^64) (hL : cfg.L < 2^64) (hT : maxInlineMapElem cfg.T < 2^32)
+    (hsz : ∀ g ks old g' c', o.newWith cfg (level + 1) x = .ok g → o.set cfg g (level + 1) k v c = .ok (ks, old, g', c') →
+      o.size g' + 2 < 2^32)
+    (hks : x.key.size < 2^32) (hxs : x.size < 2^32)
+    (hnw : x.key.same k = false → ∃ g, o.newWith cfg (level + 1) x = .ok g) :
+    singleElement_Set env (mei_cE x) c cfg.addr b k (u64 level) hk (.key k) (.val v) =
+      some (let r := mei_rESet c (MElemF.set o cfg (.single x) level k v c)
+            (r.1, r.2.1, r.2.2.1, r.2.2.2.1,
+             (match MElemF.set o cfg (.single x) level k v c with | .ok (.single x', _, _, _) => mei_cE x' | _ => mei_cE x),
+             r.2.2.2.2)) :=
+  singleElement_Set_eq_model_on o cfg k v env hE.toOn x c level hk b hl hL hT hsz hks hxs hnw trivial (fun _ _ => trivial)
 
 end
 
